@@ -127,6 +127,15 @@ def make_scripted_solver(device, options, script, default_dt, thermal_default=No
 
 def read_frames(path):
     """All frames of an output file read with h5py only: list of dicts in group-name order."""
+    from .core import LibraryOutputError
+
+    try:
+        return _read_frames(path)
+    except (OSError, KeyError, ValueError, TypeError) as exc:
+        raise LibraryOutputError(f"output-file:{type(exc).__name__}") from exc
+
+
+def _read_frames(path):
     import h5py
 
     frames = []
